@@ -236,6 +236,74 @@ MUTANTS_BTREE = [
 ]
 
 
+def rule_child_loops(rep, header_re, label):
+    """R7: an inner node with n keys has n+1 children.  In every node-restructuring function (split, rebalance, merge, erase) a loop that moves /
+    clears CHILD pointers upwards therefore runs exactly one step further than the loop over the KEYS of the same range: its bound is the
+    keys' bound plus one (`<=` instead of `<`, or E+1 instead of E).  A children loop with no such keys loop in the same function loses or
+    duplicates a subtree."""
+    u, = facts.extract([(TU, header_re, r'split$|rebalance|merge|erase$|erase\(', None, None, None, True)])
+    rep.add_units([u])
+
+    def norm(e):
+        e = strip(e, casts=True)
+        while e['k'] == 'ParenExpr' and kids(e):
+            e = strip(kids(e)[0], casts=True)
+        off = 0
+        if e['k'] == 'BinaryOperator' and e.get('op') in ('+', '-'):
+            r = strip(kids(e)[1], casts=True)
+            v = r.get('cv', r.get('val'))
+            try:
+                off = int(v) if e['op'] == '+' else -int(v)
+                e = strip(kids(e)[0], casts=True)
+                while e['k'] == 'ParenExpr' and kids(e):
+                    e = strip(kids(e)[0], casts=True)
+            except (TypeError, ValueError):
+                off = 0
+        base = expr_key(e).replace('getNumElements()', 'numElements').replace('.asInnerNode()', '').replace('this.', '').replace('(', '').replace(')', '').replace(' ', '')
+        return base, off
+    n = 0
+    seen = set()
+    for f in u.functions:
+        key = (f.file.split('/')[-1], f.name, f.line)
+        if key in seen or f.is_lambda:
+            continue
+        seen.add(key)
+        keys_b, child_loops = set(), []
+        for lp in [m for m in f.walk() if m['k'] == 'ForStmt']:
+            roles = dict(zip(lp.get('roles', []), lp['c']))
+            body, cond = roles.get('body'), roles.get('cond')
+            if body is None or cond is None:
+                continue
+            c = strip(cond, casts=True)
+            if c['k'] != 'BinaryOperator' or c.get('op') not in ('<', '<='):
+                continue
+            kind = None
+            for m in walk(body):
+                if (m['k'] == 'BinaryOperator' and m.get('op') == '=') or (m['k'] == 'CXXOperatorCallExpr' and m.get('op') == '='):
+                    l = (kids(m) if m['k'] == 'BinaryOperator' else call_args(m))[0]
+                    k = expr_key(strip(l, casts=True))
+                    if kind is None and re.search(r'keys\[', k):
+                        kind = 'keys'
+                    if re.search(r'hildren(\(\))?\[', k):
+                        kind = 'children'
+            if kind is None:
+                continue
+            base, off = norm(kids(c)[1])
+            if c['op'] == '<=':
+                off += 1
+            if kind == 'keys':
+                keys_b.add((base, off))
+            else:
+                child_loops.append((lp, base, off))
+        for lp, base, off in child_loops:
+            n += 1
+            ok = (base, off - 1) in keys_b
+            rep.ob('R7-child-loops-one-more-than-keys', '%s::%s/children-loop-to-%s%+d' % (label, f.name, base, off), ok, f.loc(lp),
+                   '' if ok else 'this loop moves child pointers up to %s%+d, but no loop over the keys of the same function runs to %s%+d: an inner node with n keys has '
+                   'n+1 children, the last (or an extra) child pointer is lost or duplicated (keys loops: %s)' % (base, off, base, off - 1, sorted(keys_b)))
+    return n
+
+
 CMP_MUTANTS = [
     ('comparator-direction-reversed', 'src/include/souffle/datastructure/BTreeUtil.h', '        return (a > b) - (a < b);', '        return (a < b) - (a > b);', 'R6'),
     ('interpreter-comparator-equal-ignores-tail', 'src/interpreter/Util.h',
@@ -262,6 +330,10 @@ def run_for(pid, classes, header, explanation, floors, mutants, sibling=None, ti
         uc, = facts.extract([comparators.JOB])
         r.add_units([uc])
         r.floor('R6-comparator-classes', comparators.rule_comparators(r, uc, r'detail::comparator|index_utils::comparator', 'R6-comparator-order'), 5)
+        if 'btree_delete' in classes:
+            r.floor('R7-children-loops', rule_child_loops(r, r'datastructure/BTreeDelete\.h$', 'btree_delete'), 8)
+        else:
+            r.floor('R7-children-loops', rule_child_loops(r, r'datastructure/BTree\.h$', 'btree'), 5)
         return c
 
     try:
